@@ -40,8 +40,8 @@ func init() {
 		Floor:         c04Floor,
 		MinNontrivial: 30,
 		Phases: []fw.Phase{
-			{Name: "diff", N: func(t fw.Tier) int { return pick(t, 1500, 60000) }, Run: func(c *fw.Case) { c04Diff(c, false) }},
-			{Name: "par", Race: true, N: func(t fw.Tier) int { return pick(t, 150, 3000) }, Run: func(c *fw.Case) { c04Diff(c, true) }},
+			{Name: "diff", N: func(t fw.Tier) int { return pick(t, 4000, 80000) }, Run: func(c *fw.Case) { c04Diff(c, false) }},
+			{Name: "par", Race: true, N: func(t fw.Tier) int { return pick(t, 300, 4000) }, Run: func(c *fw.Case) { c04Diff(c, true) }},
 		},
 		Witness: sqlWitness,
 	})
